@@ -51,7 +51,7 @@ LONG = {"name": "L", "sizes": [1, 2], "enclens": [505], "modes": [1], "maxbatche
 # wide batches: 256 lines decoded together (a per-line flag kept in 8 bits wraps at 256); trace validation only - the
 # protocol model would have to enumerate 3^256 symbol columns per step
 WIDE = {"name": "W", "sizes": [256], "enclens": [2], "modes": [1], "maxbatches": 1, "syms": ["b", "c"],
-        "shapes": ["d16h2l2"], "biases": [0, 1], "per_history": 1, "design": False, "strict": False}
+        "shapes": ["d16h2l2"], "biases": [1, 3], "per_history": 2, "design": False, "strict": False}
 
 
 def constants(b, variant="ok", **over):
